@@ -56,6 +56,12 @@ func checkC19(c *Ctx) {
 	c.Rule("C19-R15", "a mouse callback becomes an event unless its mode is off: onMouseEvent returns without posting only depending on the mouse flags and the callback's arguments, never on a remembered earlier report (two clicks on one cell are two events)")
 	c.Expect("C19-R15", 1)
 	checkWebMouseAlwaysPosts(c, p, "C19-R15")
+	c.Rule("C19-R16", "mouse callbacks are honoured only for the enabled modes, also after Suspend/Resume: EnableMouse, DisableMouse, EnablePaste and DisablePaste record the request on every path (a setter that returns early while suspended leaves the old mode for Resume to re-apply)")
+	c.Expect("C19-R16", 4)
+	checkModeSettersAlwaysRemember(c, p, "C19-R16", "wScreen", map[string]string{"EnableMouse": "mouseFlags", "DisableMouse": "mouseFlags", "EnablePaste": "pasteEnabled", "DisablePaste": "pasteEnabled"})
+	c.Rule("C19-R17", "key callbacks become events with the right key: Ctrl plus a letter is looked up under \"Ctrl-\" and the lower-cased key name; a folding helper of the module's own is decided by constant evaluation over every one-character ASCII name (a range test short of 'Z' loses Ctrl-Z with Shift or CapsLock)")
+	c.Expect("C19-R17", 1)
+	checkWebCtrlNameFolding(c, p, "C19-R17")
 	// R1
 	tpkg := p.pkg("")
 	if tpkg == nil {
